@@ -548,16 +548,15 @@ class SequenceEncoder(AbstractItemEncoder):
             return False
 
     @staticmethod
-    def _isDefaultPy(pyObject, defaultValue):
+    def _asValueObject(pyObject, defaultValue):
         # compare like with like: the value object the Python one stands for
         from pyasn1.codec.native import decoder
 
         try:
-            return decoder.decode(
-                pyObject, asn1Spec=defaultValue.clone()) == defaultValue
+            return decoder.decode(pyObject, asn1Spec=defaultValue.clone())
 
         except error.PyAsn1Error:
-            return False
+            return None
 
     # TODO: handling three flavors of input is too much -- split over codecs
 
@@ -679,7 +678,10 @@ class SequenceEncoder(AbstractItemEncoder):
                 elif (namedType.isDefaulted and
                         not isinstance(component, base.Asn1Item)):
                     # a constructed default given as a Python value
-                    if self._isDefaultPy(component, defaultValue):
+                    valueObject = self._asValueObject(component, defaultValue)
+
+                    if valueObject is not None and self._isDefault(
+                            valueObject, namedType, encodeFun, options):
                         continue
 
                 if namedType.isDefaulted and self._isDefault(
